@@ -5,7 +5,7 @@ import logging
 import os
 from dataclasses import dataclass, field
 
-from . import xltypes, reader, parser, tokenizer
+from . import xltypes, reader, parser, tokenizer, utils
 
 
 @dataclass
@@ -229,6 +229,15 @@ class ModelCompiler:
         for name in self.defined_names:
             cell_address = self.defined_names[name]
             cell_address = cell_address.replace('$', '')
+            # Cells are keyed by the plain sheet name, without the quotes a
+            # name such as 'My Sheet' needs in a reference.
+            areas = []
+            for area in cell_address.split(','):
+                if '!' in area:
+                    sheet_str, address_str = area.rsplit('!', 1)
+                    area = f'{utils.resolve_sheet(sheet_str)}!{address_str}'
+                areas.append(area)
+            cell_address = ','.join(areas)
 
             # a cell has an address like; Sheet1!A1
             if ':' not in cell_address:
@@ -267,8 +276,10 @@ class ModelCompiler:
                 if any(isinstance(el, list) for el in defn.cells):
                     for column in defn.cells:
                         for row_address in column:
-                            self.model.cells[row_address].defined_names.append(
-                                name)
+                            # Empty cells of the range are not stored.
+                            if row_address in self.model.cells:
+                                self.model.cells[
+                                    row_address].defined_names.append(name)
                 else:
                     # programmer error
                     message = "This isn't a dim2 array. {}".format(name)
